@@ -458,15 +458,29 @@ Proof.
     + cbn [length] in H. rewrite (IH l) by lia. reflexivity.
 Qed.
 
+Lemma forallb_zero_pad l k : forallb (fun f => f =? 0) (l ++ repeat 0 k) = forallb (fun f => f =? 0) l.
+Proof.
+  rewrite forallb_app. replace (forallb (fun f => f =? 0) (repeat 0 k)) with true; [apply andb_true_r|].
+  induction k; cbn; auto.
+Qed.
+
 Theorem cflist_channels_spec (s : st) :
   cflist_channels s = spec_cflist_channels (cfmin s) (cfmax s) (up s).
 Proof.
-  unfold cflist_channels, spec_cflist_channels.
+  unfold cflist_channels, cflist_channel_slots, spec_cflist_channels.
   set (l := map freq (firstn 5 (filter (fun c => custom c && (minDR c =? cfmin s) && (maxDR c =? cfmax s)) (up s)))).
   assert (L : (length l <= 5)%nat) by (unfold l; rewrite map_length; apply firstn_le_length).
-  rewrite (pad_to_app 0 5 l L).
-  destruct l as [|z l']; [reflexivity|]. cbn [app]. destruct z; reflexivity.
+  rewrite (pad_to_app 0 5 l L), forallb_zero_pad. reflexivity.
 Qed.
+
+(* the code before the fix offered nothing when the first eligible custom channel has
+   frequency 0 (an unused slot) although later ones exist *)
+Theorem cflist_channels_prefix_refuted :
+  let c0 := mkChannel 0 0 5 false true in
+  let c1 := mkChannel 867100000 0 5 true true in
+  let s := mkSt true 0 5 [c0; c1] [c0; c1] [] in
+  cflist_channels_prefix s = None /\ cflist_channels s = Some (CFChannels [0; 867100000; 0; 0; 0]).
+Proof. vm_compute. split; reflexivity. Qed.
 
 Lemma pad_nil {A} (d : A) (f : nat -> nat) : forall w k, pad_to d w [] = map (fun j => nth (f j) [] d) (seq k w).
 Proof.
@@ -552,10 +566,11 @@ Proof.
   rewrite get_cflist_spec. unfold spec_cflist. destruct (extra s); [|destruct (pv_before_103 v); discriminate].
   unfold spec_cflist_channels.
   set (sel := filter (fun c => custom c && (minDR c =? cfmin s) && (maxDR c =? cfmax s)) (up s)).
-  destruct (map freq (firstn 5 sel)) as [|z l'] eqn:E; [discriminate|].
-  intros H Hin. assert (X : fs = (z :: l') ++ repeat 0 (5 - length (z :: l'))) by (destruct z; congruence).
+  destruct (forallb (fun f0 => f0 =? 0) (map freq (firstn 5 sel))); [discriminate|].
+  intros H Hin.
+  assert (X : fs = map freq (firstn 5 sel) ++ repeat 0 (5 - length (map freq (firstn 5 sel)))) by congruence.
   rewrite X in Hin. apply in_app_iff in Hin as [Hin|Hin].
-  - right. rewrite <- E in Hin. apply in_map_iff in Hin as [c [<- Hc]]. apply In_firstn in Hc.
+  - right. apply in_map_iff in Hin as [c [<- Hc]]. apply In_firstn in Hc.
     apply filter_In in Hc as [Hc P]. exists c. split; [exact Hc|]. split; [|reflexivity].
     apply andb_true_iff in P as [P _]. apply andb_true_iff in P as [P _]. exact P.
   - left. now apply repeat_spec in Hin.
